@@ -78,20 +78,46 @@ func KseDecodedName() string {
 
 type KseTree struct {
 	Top   string   // everything the harness owns lives below top
-	Roots []string // store directories
+	Roots []string // store directories (clean paths): upload, cache
+	slash bool     // configured with a trailing slash, as in the shipped configs
 }
 
 // KseLayout nests the store three levels deep so that dot-dot escapes of
 // the bounded names stay inside the harness' own directory natively, and
-// plants a decoy data file in every ancestor.
-func KseLayout() KseTree {
+// plants a decoy data file in every ancestor. The store directories have
+// one-letter names, the cache directory's being the ordinary byte of the
+// name alphabet, so that sibling directories whose name merely starts with a
+// store directory's name ("a" vs "aa") are expressible within the name bound.
+// The spelling of the configured directories (plain or with a trailing slash)
+// is a configuration choice when bothSpellings is set; otherwise the
+// directories are written with a trailing slash, as in every shipped
+// config/*/base.yaml.
+func KseLayout(bothSpellings bool) KseTree {
 	top := filepath.Join(verif.TempDir(), "c11")
 	base := filepath.Join(top, "l1", "l2", "l3")
 	KseMust(os.MkdirAll(base, 0o775))
 	for _, d := range []string{base, filepath.Dir(base), filepath.Dir(filepath.Dir(base)), top} {
 		KseMust(os.WriteFile(filepath.Join(d, "data"), []byte(KseDecoy), 0o664))
 	}
-	return KseTree{Top: top, Roots: []string{filepath.Join(base, "upload"), filepath.Join(base, "cache")}}
+	// sibling directories whose names extend a store directory's name (like
+	// cache and cache-backup), each holding a decoy entry
+	for _, sib := range []string{"aa", "uu"} {
+		KseMust(os.MkdirAll(filepath.Join(base, sib), 0o775))
+		KseMust(os.WriteFile(filepath.Join(base, sib, "data"), []byte(KseDecoy), 0o664))
+	}
+	return KseTree{
+		Top:   top,
+		Roots: []string{filepath.Join(base, "u"), filepath.Join(base, "a")},
+		slash: !bothSpellings || verif.Choice("dir-trailing-slash", 2) == 1,
+	}
+}
+
+// Dir returns store directory i as it is written in the configuration.
+func (t KseTree) Dir(i int) string {
+	if t.slash {
+		return t.Roots[i] + "/"
+	}
+	return t.Roots[i]
 }
 
 func KseMust(err error) {
@@ -117,6 +143,9 @@ func (t KseTree) Outside() []string {
 				}
 			}
 			if isRoot {
+				// the store directory itself must stay; its content is the
+				// store's business
+				out = append(out, p+"/ (store directory)")
 				continue
 			}
 			if e.IsDir() {
